@@ -5,7 +5,7 @@ from ..flow import standard_flow
 
 NH = {"quick": 70, "thorough": 1500}
 INPUT = ("index", "seed", "max", "players", "ante", "dealer_blind", "sb", "bb", "action_time", "fault_pct", "auto_fault", "auto_at",
-         "illegal_pct", "extend_pct", "hands", "first_dealer", "withhold", "started_backend", "late_extend_pct", "pause_pct", "withhold_at", "state_with_error", "bystander_leave_pct", "participant_leave_pct")
+         "illegal_pct", "extend_pct", "hands", "first_dealer", "withhold", "started_backend", "late_extend_pct", "pause_pct", "withhold_at", "state_with_error", "bystander_leave_pct", "participant_leave_pct", "slow_listener_pct")
 CODES = {2: "model-vs-implementation", 3: "C10 monitor", 4: "C13 monitor", 5: "C14 monitor", 6: "C15 monitor", 7: "C11 monitor"}
 STATS_BASE = 5000
 
